@@ -194,3 +194,107 @@ def dead_sweep(facts, lf):
         if good:
             return e[4]
     return None
+
+
+ACCUMULATORS = {"append", "push", "extend", "extend_from_slice"}
+
+
+def yield_vector(ctx, rule):
+    """The vector requests() hands to the application: found from the `Ok(v)` the function returns.
+    Necessary condition for "every request counted in flight is yielded": inside the event loop `v` is only
+    ever accumulated into (receiver of append / push / extend), never reassigned, drained, cleared or moved
+    away.  Returns the set of blocks whose terminator is such an accumulating call on `v` (also through
+    helpers that take `&mut v`)."""
+    facts = ctx.facts
+    fn = facts.fns[REQUESTS]
+    ys = set()
+    for d in fn.defs.get(0, []):
+        if d[0] == "stmt" and d[3]["k"] == "aggregate" and d[3].get("adt") == "std::result::Result" and d[3].get("variant") == "Ok":
+            op = d[3]["ops"][0]
+            if op["k"] in ("move", "copy") and not op["place"]["proj"]:
+                ys.add(op["place"]["local"])
+    # follow plain moves backwards: `_180 = move _2`
+    work = list(ys)
+    while work:
+        l = work.pop()
+        for d in fn.defs.get(l, []):
+            if d[0] == "stmt" and d[3]["k"] == "use" and d[3]["op"]["k"] in ("move", "copy") and not d[3]["op"]["place"]["proj"]:
+                s = d[3]["op"]["place"]["local"]
+                if s not in ys:
+                    ys.add(s)
+                    work.append(s)
+    ctx.ob(rule, "yield|vector-found", bool(ys), "requests() returns Ok(v) with v one of the locals %s" % sorted("_%d" % y for y in ys), fn.loc(0))
+    acc_blocks = set()
+    cyc = fn.cyclic_blocks()
+    n_init = 0
+    for y in sorted(ys):
+        for d in fn.defs.get(y, []):
+            bb = d[1]
+            is_move_in = d[0] == "stmt" and d[3]["k"] == "use" and d[3]["op"]["k"] in ("move", "copy") and d[3]["op"]["place"]["local"] in ys
+            if is_move_in:
+                continue
+            n_init += 1
+            ctx.ob(rule, "yield|not-reassigned-in-loop|_%d" % y, bb not in cyc, "the vector of yielded requests is given a new value only outside the event loop (a reassignment inside it forgets requests already read and counted in flight)", fn.loc(bb, d[2] if d[0] == "stmt" else None))
+    ctx.ob(rule, "yield|initialised", n_init >= 1, "%d initialising definition(s) of the yielded vector" % n_init, fn.loc(0))
+    n_acc = [0]
+    top = [None]
+    in_loop = [False]
+
+    def uses_of_handles(f, handles, depth, where):
+        """`handles`: locals of f holding `&mut v`.  Every call they are passed to must accumulate."""
+        handles = set(handles)
+        changed = True
+        while changed:
+            changed = False
+            for bi, si, place, rv in f.assigns():
+                if not place["proj"] and place["local"] not in handles:
+                    src = None
+                    if rv["k"] == "use" and rv["op"]["k"] in ("move", "copy") and not rv["op"]["place"]["proj"]:
+                        src = rv["op"]["place"]["local"]
+                    elif rv["k"] == "ref" and rv["mut"] and [e["k"] for e in rv["place"]["proj"]] == ["deref"]:
+                        src = rv["place"]["local"]
+                    if src in handles:
+                        handles.add(place["local"])
+                        changed = True
+        for bi, si, place, rv in f.assigns():
+            if place["local"] in handles and [e["k"] for e in place["proj"]] == ["deref"]:
+                ctx.ob(rule, "yield|not-overwritten|%s" % where, False, "the yielded vector is overwritten through a reference", f.loc(bi, si))
+        for bi, t in f.calls():
+            pos = [i for i, a in enumerate(t["args"]) if a["k"] in ("move", "copy") and not a["place"]["proj"] and a["place"]["local"] in handles]
+            if not pos:
+                continue
+            from .util import local_callee, is_new_fn
+            p = local_callee(t) or ""
+            seg = last_seg(p)
+            if seg in ACCUMULATORS and pos == [0]:
+                n_acc[0] += 1
+                acc_blocks.add((f.name, bi))
+                if f is not fn:
+                    in_loop[0] = in_loop[0] or top[0] in cyc
+                ctx.ob(rule, "yield|accumulated|%s|%s" % (where, seg), True, "requests are added to the yielded vector with %s" % seg, f.loc(bi))
+            elif p in facts.fns and is_new_fn(p) and depth < 3:
+                g = facts.fns[p]
+                if f is fn:
+                    top[0] = bi
+                uses_of_handles(g, {i + 1 for i in pos}, depth + 1, where + ">" + last_seg(p))
+            else:
+                ctx.ob(rule, "yield|only-accumulated|%s|%s" % (where, seg), False, "the yielded vector is handed by `&mut` to %s, which is not one of %s on it: requests already collected may be lost" % (p, sorted(ACCUMULATORS)), f.loc(bi))
+
+    roots = set()
+    for bi, si, place, rv in fn.assigns():
+        if rv["k"] == "ref" and rv["mut"] and not rv["place"]["proj"] and rv["place"]["local"] in ys and not place["proj"]:
+            roots.add(place["local"])
+    uses_of_handles(fn, roots, 0, "requests")
+    # the vector is moved only into the returned Ok(..)
+    for bi, t in fn.calls():
+        for a in t["args"]:
+            if a["k"] == "move" and not a["place"]["proj"] and a["place"]["local"] in ys:
+                ctx.ob(rule, "yield|not-moved-away", False, "the yielded vector is moved into a call to %s" % (callee(t)), fn.loc(bi))
+    looped = in_loop[0] or any(f == fn.name and b in cyc for f, b in acc_blocks)
+    ctx.ob(rule, "yield|floor", n_acc[0] >= 1 and looped, "%d accumulating call(s) on the yielded vector, %s in the event loop (floor 1)" % (n_acc[0], "some" if looped else "none"), fn.loc(0))
+    return acc_blocks
+
+
+def callee(t):
+    c = t["callee"]
+    return (c.get("resolved") or {}).get("path") or c.get("path")
